@@ -19,10 +19,23 @@ def one(entry):
     try:
         sh(f"git -C /repo worktree add -q --detach {w} HEAD")
         r = sh(f"cd {w} && git revert --no-commit {commit}")
-        out['revert_applies'] = r.returncode == 0
         if r.returncode != 0:
-            out['note'] = r.stderr[-300:]
-            return out
+            # a later fix touched the same lines: revert the later commits on the same files first (newest first), then this one
+            sh(f"cd {w} && git revert --abort; git checkout -q -- . ")
+            files = sh(f"cd {w} && git show --name-only --format= {commit}").stdout.split()
+            later = sh(f"cd {w} && git log --format=%h {commit}..HEAD -- {' '.join(files)}").stdout.split()
+            ok = True
+            for c2 in later + [commit]:
+                r = sh(f"cd {w} && git revert --no-commit {c2}")
+                if r.returncode != 0:
+                    ok = False
+                    break
+            out['also_reverted'] = later
+            if not ok:
+                out['revert_applies'] = False
+                out['note'] = r.stderr[-300:]
+                return out
+        out['revert_applies'] = True
         tmp = tempfile.mkdtemp(prefix='revert_tmp_')
         cr = sh(f"VERIF_REPO={w} timeout 2400 {V}/bin/check {pid} --tier quick", env=dict(os.environ, TMPDIR=tmp, VERIF_EVIDENCE_DIR=tmp))
         vl = [l for l in cr.stdout.splitlines() if l.startswith('VIOLATION')]
